@@ -139,6 +139,13 @@ var progSpecs = []progSpec{
 	{"configure/loader", "ArgsLoader", "LoadConfig", "loader_Args", ""},
 	{"configure/loader", "FileLoader", "LoadConfig", "loader_File", ""},
 	{"configure/loader", "RawLoader", "LoadConfig", "loader_Raw", ""},
+	{"container/support", "registry", "GetSingleton", "sreg_GetSingleton", ""},
+	{"container/support", "registry", "ContainsSingleton", "sreg_ContainsSingleton", ""},
+	{"container/support", "registry", "GetSingletonNames", "sreg_GetSingletonNames", ""},
+	{"container/support", "registry", "GetSingletonCount", "sreg_GetSingletonCount", ""},
+	{"component_definition", "", "NewHolder", "holder_NewHolder", ""},
+	{"component_definition", "", "NewEmbedHolder", "holder_NewEmbedHolder", ""},
+	{"component_definition", "Meta", "GetAllProperties", "meta_GetAllProperties", ""},
 }
 
 // conversions whose single argument is passed through unchanged
